@@ -245,7 +245,8 @@ def check_property(prop, tier="quick", seed=0, jobs=4):
         if prop == "C04" and r["summary"]:
             # Verus' own per-function safety queries (bounds, overflow, unwrap, panic-freedom, termination)
             fs = r["summary"]["funcs"]
-            obligations += len(fs); discharged += sum(1 for f in fs if f["success"])
+            obligations += len(fs)
+            discharged += len(fs) if r["status"] == "ok" else sum(1 for f in fs if f["success"])
         for c in mine[:3]:
             samples.append({"unit": r["unit"], "clause": c["clause"], "text": c["text"]})
         if r["info"]:
